@@ -81,7 +81,7 @@ def plan(ctx):
         c = d["c"]
         n, k = d["n"], d["k"]
         r = n - k
-        if k <= (10 if ctx.thorough else 8) and n <= 24:
+        if k <= (10 if ctx.thorough else 8) and (n <= 24 or name.startswith("wide") or (c.family in ("bch", "reed_muller") and n >= 63)):
             out.append((name, "ml"))
         if r <= (11 if ctx.thorough else 8) and n <= 24 and c.family != "reed_muller":
             out.append((name, "syn"))
